@@ -379,6 +379,9 @@ pub fn run(rp: &Replay, st: &mut Stats) -> Option<Violation> {
         let trace: Vec<Ev> = w.cpu.trace.clone();
         st.fold_trace(&trace);
         st.fold(w.cpu.boundary);
+        if std::env::var_os("C17_DUMP").is_some() {
+            eprintln!("step {i} boundary {} trace {:?}", w.cpu.boundary, trace);
+        }
         model.seq.clear();
         model.are_enabled.clear();
         model.iflag = if_before;
